@@ -1390,6 +1390,14 @@ let well_formed j =
 let is_job_invalid_light_sw1_IMB_CIPHER_NULL _ _ _ _ _ =
   None
 
+(** val is_job_invalid_light_sw1_IMB_CIPHER_CBCS_1_9 :
+    job_view -> n -> n -> n -> n -> n option **)
+
+let is_job_invalid_light_sw1_IMB_CIPHER_CBCS_1_9 _ _ _ _ key_len_in_bytes =
+  if negb (N.eqb key_len_in_bytes (Npos (XO (XO (XO (XO XH))))))
+  then Some iMB_ERR_JOB_KEY_LEN
+  else None
+
 (** val is_job_invalid_light_sw1_IMB_CIPHER_CBC :
     job_view -> n -> n -> n -> n -> n option **)
 
@@ -1501,10 +1509,16 @@ let is_job_invalid_light_sw1_IMB_CIPHER_CHACHA20 _ _ _ _ key_len_in_bytes =
 (** val is_job_invalid_light_sw1_IMB_CIPHER_CHACHA20_POLY1305 :
     job_view -> n -> n -> n -> n -> n option **)
 
-let is_job_invalid_light_sw1_IMB_CIPHER_CHACHA20_POLY1305 _ _ _ _ key_len_in_bytes =
+let is_job_invalid_light_sw1_IMB_CIPHER_CHACHA20_POLY1305 _ cipher_mode hash_alg _ key_len_in_bytes =
   if negb (N.eqb key_len_in_bytes (Npos (XO (XO (XO (XO (XO XH)))))))
   then Some iMB_ERR_JOB_KEY_LEN
-  else None
+  else if (&&) (N.eqb cipher_mode iMB_CIPHER_CHACHA20_POLY1305)
+            (negb (N.eqb hash_alg iMB_AUTH_CHACHA20_POLY1305))
+       then Some iMB_ERR_HASH_ALGO
+       else if (&&) (N.eqb cipher_mode iMB_CIPHER_CHACHA20_POLY1305_SGL)
+                 (negb (N.eqb hash_alg iMB_AUTH_CHACHA20_POLY1305_SGL))
+            then Some iMB_ERR_HASH_ALGO
+            else None
 
 (** val is_job_invalid_light_sw1_IMB_CIPHER_SNOW_V_AEAD :
     job_view -> n -> n -> n -> n -> n option **)
@@ -1542,89 +1556,84 @@ let is_job_invalid_light_sw1 j cipher_mode hash_alg cipher_direction key_len_in_
        (N.eqb cipher_mode iMB_CIPHER_CUSTOM)
   then is_job_invalid_light_sw1_IMB_CIPHER_NULL j cipher_mode hash_alg
          cipher_direction key_len_in_bytes
-  else if (||)
-            ((||)
-              ((||)
-                ((||) (N.eqb cipher_mode iMB_CIPHER_CBC)
-                  (N.eqb cipher_mode iMB_CIPHER_CBCS_1_9))
-                (N.eqb cipher_mode iMB_CIPHER_ECB))
-              (N.eqb cipher_mode iMB_CIPHER_CNTR))
-            (N.eqb cipher_mode iMB_CIPHER_CNTR_BITLEN)
-       then is_job_invalid_light_sw1_IMB_CIPHER_CBC j cipher_mode hash_alg
-              cipher_direction key_len_in_bytes
-       else if N.eqb cipher_mode iMB_CIPHER_DOCSIS_SEC_BPI
-            then is_job_invalid_light_sw1_IMB_CIPHER_DOCSIS_SEC_BPI j
-                   cipher_mode hash_alg cipher_direction key_len_in_bytes
-            else if (||) (N.eqb cipher_mode iMB_CIPHER_GCM)
-                      (N.eqb cipher_mode iMB_CIPHER_GCM_SGL)
-                 then is_job_invalid_light_sw1_IMB_CIPHER_GCM j cipher_mode
-                        hash_alg cipher_direction key_len_in_bytes
-                 else if N.eqb cipher_mode iMB_CIPHER_SM4_GCM
-                      then is_job_invalid_light_sw1_IMB_CIPHER_SM4_GCM j
+  else if N.eqb cipher_mode iMB_CIPHER_CBCS_1_9
+       then is_job_invalid_light_sw1_IMB_CIPHER_CBCS_1_9 j cipher_mode
+              hash_alg cipher_direction key_len_in_bytes
+       else if (||)
+                 ((||)
+                   ((||) (N.eqb cipher_mode iMB_CIPHER_CBC)
+                     (N.eqb cipher_mode iMB_CIPHER_ECB))
+                   (N.eqb cipher_mode iMB_CIPHER_CNTR))
+                 (N.eqb cipher_mode iMB_CIPHER_CNTR_BITLEN)
+            then is_job_invalid_light_sw1_IMB_CIPHER_CBC j cipher_mode
+                   hash_alg cipher_direction key_len_in_bytes
+            else if N.eqb cipher_mode iMB_CIPHER_DOCSIS_SEC_BPI
+                 then is_job_invalid_light_sw1_IMB_CIPHER_DOCSIS_SEC_BPI j
+                        cipher_mode hash_alg cipher_direction key_len_in_bytes
+                 else if (||) (N.eqb cipher_mode iMB_CIPHER_GCM)
+                           (N.eqb cipher_mode iMB_CIPHER_GCM_SGL)
+                      then is_job_invalid_light_sw1_IMB_CIPHER_GCM j
                              cipher_mode hash_alg cipher_direction
                              key_len_in_bytes
-                      else if (||) (N.eqb cipher_mode iMB_CIPHER_DES)
-                                (N.eqb cipher_mode iMB_CIPHER_DOCSIS_DES)
-                           then is_job_invalid_light_sw1_IMB_CIPHER_DES j
+                      else if N.eqb cipher_mode iMB_CIPHER_SM4_GCM
+                           then is_job_invalid_light_sw1_IMB_CIPHER_SM4_GCM j
                                   cipher_mode hash_alg cipher_direction
                                   key_len_in_bytes
-                           else if N.eqb cipher_mode iMB_CIPHER_CCM
-                                then is_job_invalid_light_sw1_IMB_CIPHER_CCM
+                           else if (||) (N.eqb cipher_mode iMB_CIPHER_DES)
+                                     (N.eqb cipher_mode iMB_CIPHER_DOCSIS_DES)
+                                then is_job_invalid_light_sw1_IMB_CIPHER_DES
                                        j cipher_mode hash_alg
                                        cipher_direction key_len_in_bytes
-                                else if N.eqb cipher_mode iMB_CIPHER_DES3
-                                     then is_job_invalid_light_sw1_IMB_CIPHER_DES3
+                                else if N.eqb cipher_mode iMB_CIPHER_CCM
+                                     then is_job_invalid_light_sw1_IMB_CIPHER_CCM
                                             j cipher_mode hash_alg
                                             cipher_direction key_len_in_bytes
-                                     else if N.eqb cipher_mode
-                                               iMB_CIPHER_PON_AES_CNTR
-                                          then is_job_invalid_light_sw1_IMB_CIPHER_PON_AES_CNTR
+                                     else if N.eqb cipher_mode iMB_CIPHER_DES3
+                                          then is_job_invalid_light_sw1_IMB_CIPHER_DES3
                                                  j cipher_mode hash_alg
                                                  cipher_direction
                                                  key_len_in_bytes
                                           else if N.eqb cipher_mode
-                                                    iMB_CIPHER_ZUC_EEA3
-                                               then is_job_invalid_light_sw1_IMB_CIPHER_ZUC_EEA3
+                                                    iMB_CIPHER_PON_AES_CNTR
+                                               then is_job_invalid_light_sw1_IMB_CIPHER_PON_AES_CNTR
                                                       j cipher_mode hash_alg
                                                       cipher_direction
                                                       key_len_in_bytes
-                                               else if (||)
-                                                         ((||)
-                                                           ((||)
-                                                             ((||)
-                                                               (N.eqb
-                                                                 cipher_mode
-                                                                 iMB_CIPHER_SNOW3G_UEA2_BITLEN)
-                                                               (N.eqb
-                                                                 cipher_mode
-                                                                 iMB_CIPHER_KASUMI_UEA1_BITLEN))
-                                                             (N.eqb
-                                                               cipher_mode
-                                                               iMB_CIPHER_SM4_CBC))
-                                                           (N.eqb cipher_mode
-                                                             iMB_CIPHER_SM4_ECB))
-                                                         (N.eqb cipher_mode
-                                                           iMB_CIPHER_SM4_CNTR)
-                                                    then is_job_invalid_light_sw1_IMB_CIPHER_SNOW3G_UEA2_BITLEN
+                                               else if N.eqb cipher_mode
+                                                         iMB_CIPHER_ZUC_EEA3
+                                                    then is_job_invalid_light_sw1_IMB_CIPHER_ZUC_EEA3
                                                            j cipher_mode
                                                            hash_alg
                                                            cipher_direction
                                                            key_len_in_bytes
-                                                    else if N.eqb cipher_mode
-                                                              iMB_CIPHER_CHACHA20
-                                                         then is_job_invalid_light_sw1_IMB_CIPHER_CHACHA20
+                                                    else if (||)
+                                                              ((||)
+                                                                ((||)
+                                                                  ((||)
+                                                                    (N.eqb
+                                                                    cipher_mode
+                                                                    iMB_CIPHER_SNOW3G_UEA2_BITLEN)
+                                                                    (N.eqb
+                                                                    cipher_mode
+                                                                    iMB_CIPHER_KASUMI_UEA1_BITLEN))
+                                                                  (N.eqb
+                                                                    cipher_mode
+                                                                    iMB_CIPHER_SM4_CBC))
+                                                                (N.eqb
+                                                                  cipher_mode
+                                                                  iMB_CIPHER_SM4_ECB))
+                                                              (N.eqb
+                                                                cipher_mode
+                                                                iMB_CIPHER_SM4_CNTR)
+                                                         then is_job_invalid_light_sw1_IMB_CIPHER_SNOW3G_UEA2_BITLEN
                                                                 j cipher_mode
                                                                 hash_alg
                                                                 cipher_direction
                                                                 key_len_in_bytes
-                                                         else if (||)
-                                                                   (N.eqb
-                                                                    cipher_mode
-                                                                    iMB_CIPHER_CHACHA20_POLY1305)
-                                                                   (N.eqb
-                                                                    cipher_mode
-                                                                    iMB_CIPHER_CHACHA20_POLY1305_SGL)
-                                                              then is_job_invalid_light_sw1_IMB_CIPHER_CHACHA20_POLY1305
+                                                         else if N.eqb
+                                                                   cipher_mode
+                                                                   iMB_CIPHER_CHACHA20
+                                                              then is_job_invalid_light_sw1_IMB_CIPHER_CHACHA20
                                                                     j
                                                                     cipher_mode
                                                                     hash_alg
@@ -1634,18 +1643,34 @@ let is_job_invalid_light_sw1 j cipher_mode hash_alg cipher_direction key_len_in_
                                                                     (||)
                                                                     (N.eqb
                                                                     cipher_mode
-                                                                    iMB_CIPHER_SNOW_V_AEAD)
+                                                                    iMB_CIPHER_CHACHA20_POLY1305)
                                                                     (N.eqb
                                                                     cipher_mode
-                                                                    iMB_CIPHER_SNOW_V)
+                                                                    iMB_CIPHER_CHACHA20_POLY1305_SGL)
                                                                    then 
-                                                                    is_job_invalid_light_sw1_IMB_CIPHER_SNOW_V_AEAD
+                                                                    is_job_invalid_light_sw1_IMB_CIPHER_CHACHA20_POLY1305
                                                                     j
                                                                     cipher_mode
                                                                     hash_alg
                                                                     cipher_direction
                                                                     key_len_in_bytes
                                                                    else 
+                                                                    if 
+                                                                    (||)
+                                                                    (N.eqb
+                                                                    cipher_mode
+                                                                    iMB_CIPHER_SNOW_V_AEAD)
+                                                                    (N.eqb
+                                                                    cipher_mode
+                                                                    iMB_CIPHER_SNOW_V)
+                                                                    then 
+                                                                    is_job_invalid_light_sw1_IMB_CIPHER_SNOW_V_AEAD
+                                                                    j
+                                                                    cipher_mode
+                                                                    hash_alg
+                                                                    cipher_direction
+                                                                    key_len_in_bytes
+                                                                    else 
                                                                     if 
                                                                     N.eqb
                                                                     cipher_mode
@@ -2056,28 +2081,39 @@ let is_job_invalid_sw1_IMB_CIPHER_CBC j cipher_mode _ cipher_direction key_len_i
                                      else oseq
                                             (if N.eqb cipher_mode
                                                   iMB_CIPHER_CBCS_1_9
-                                             then if N.ltb (Npos (XI (XI (XI
-                                                       (XI (XI (XI (XI (XI
-                                                       (XI (XI (XI (XI (XI
-                                                       (XI (XI (XI (XI (XI
-                                                       (XI (XI (XI (XI (XI
-                                                       (XI (XI (XI (XI (XI
-                                                       (XI (XI (XI (XI (XI
-                                                       (XI (XI (XI (XI (XI
-                                                       (XI (XI (XI (XI (XI
-                                                       (XI (XI (XI (XI (XI
-                                                       (XI (XI (XI (XI (XI
-                                                       (XI (XI (XI (XI (XI
-                                                       (XI
-                                                       XH))))))))))))))))))))))))))))))))))))))))))))))))))))))))))))
-                                                       j.jv_msg_len_to_cipher
+                                             then if negb
+                                                       (N.eqb
+                                                         key_len_in_bytes
+                                                         (Npos (XO (XO (XO
+                                                         (XO XH))))))
                                                   then Some
-                                                         iMB_ERR_JOB_CIPH_LEN
-                                                  else if N.eqb j.jv_next_iv
-                                                            N0
+                                                         iMB_ERR_JOB_KEY_LEN
+                                                  else if N.ltb (Npos (XI (XI
+                                                            (XI (XI (XI (XI
+                                                            (XI (XI (XI (XI
+                                                            (XI (XI (XI (XI
+                                                            (XI (XI (XI (XI
+                                                            (XI (XI (XI (XI
+                                                            (XI (XI (XI (XI
+                                                            (XI (XI (XI (XI
+                                                            (XI (XI (XI (XI
+                                                            (XI (XI (XI (XI
+                                                            (XI (XI (XI (XI
+                                                            (XI (XI (XI (XI
+                                                            (XI (XI (XI (XI
+                                                            (XI (XI (XI (XI
+                                                            (XI (XI (XI (XI
+                                                            (XI
+                                                            XH))))))))))))))))))))))))))))))))))))))))))))))))))))))))))))
+                                                            j.jv_msg_len_to_cipher
                                                        then Some
-                                                              iMB_ERR_JOB_NULL_NEXT_IV
-                                                       else None
+                                                              iMB_ERR_JOB_CIPH_LEN
+                                                       else if N.eqb
+                                                                 j.jv_next_iv
+                                                                 N0
+                                                            then Some
+                                                                   iMB_ERR_JOB_NULL_NEXT_IV
+                                                            else None
                                              else if (&&)
                                                        (N.eqb
                                                          cipher_direction
@@ -2760,7 +2796,7 @@ let is_job_invalid_sw1_IMB_CIPHER_CHACHA20 j _ _ _ key_len_in_bytes =
 (** val is_job_invalid_sw1_IMB_CIPHER_CHACHA20_POLY1305 :
     job_view -> n -> n -> n -> n -> n option **)
 
-let is_job_invalid_sw1_IMB_CIPHER_CHACHA20_POLY1305 j _ _ _ key_len_in_bytes =
+let is_job_invalid_sw1_IMB_CIPHER_CHACHA20_POLY1305 j _ hash_alg _ key_len_in_bytes =
   if (&&) (negb (N.eqb j.jv_msg_len_to_cipher N0)) (N.eqb j.jv_src N0)
   then Some iMB_ERR_JOB_NULL_SRC
   else if (&&) (negb (N.eqb j.jv_msg_len_to_cipher N0)) (N.eqb j.jv_dst N0)
@@ -2784,64 +2820,73 @@ let is_job_invalid_sw1_IMB_CIPHER_CHACHA20_POLY1305 j _ _ _ key_len_in_bytes =
                                      (N.eqb j.jv_iv_len_in_bytes (Npos (XO
                                        (XO (XI XH)))))
                                 then Some iMB_ERR_JOB_IV_LEN
-                                else None
+                                else if negb
+                                          (N.eqb hash_alg
+                                            iMB_AUTH_CHACHA20_POLY1305)
+                                     then Some iMB_ERR_HASH_ALGO
+                                     else None
 
 (** val is_job_invalid_sw1_IMB_CIPHER_CHACHA20_POLY1305_SGL :
     job_view -> n -> n -> n -> n -> n option **)
 
 let is_job_invalid_sw1_IMB_CIPHER_CHACHA20_POLY1305_SGL j cipher_mode hash_alg cipher_direction key_len_in_bytes =
-  if N.eqb j.jv_iv N0
-  then Some iMB_ERR_JOB_NULL_IV
-  else if negb (N.eqb j.jv_iv_len_in_bytes (Npos (XO (XO (XI XH)))))
-       then Some iMB_ERR_JOB_IV_LEN
-       else if N.eqb j.jv_enc_keys N0
-            then Some iMB_ERR_JOB_NULL_KEY
-            else if negb
-                      (N.eqb key_len_in_bytes (Npos (XO (XO (XO (XO (XO
-                        XH)))))))
-                 then Some iMB_ERR_JOB_KEY_LEN
-                 else oseq
-                        (if (||)
-                              ((||) (N.eqb j.jv_sgl_state iMB_SGL_INIT)
-                                (N.eqb j.jv_sgl_state iMB_SGL_UPDATE))
-                              (N.eqb j.jv_sgl_state iMB_SGL_COMPLETE)
-                         then if N.ltb (Npos (XO (XO (XO (XO (XO (XO (XI (XI
-                                   (XI (XI (XI (XI (XI (XI (XI (XI (XI (XI
-                                   (XI (XI (XI (XI (XI (XI (XI (XI (XI (XI
-                                   (XI (XI (XI (XI (XI (XI (XI (XI (XI
-                                   XH))))))))))))))))))))))))))))))))))))))
-                                   j.jv_msg_len_to_cipher
-                              then Some iMB_ERR_JOB_CIPH_LEN
-                              else if (&&)
-                                        (negb
-                                          (N.eqb j.jv_msg_len_to_cipher N0))
-                                        (N.eqb j.jv_src N0)
-                                   then Some iMB_ERR_JOB_NULL_SRC
+  if negb (N.eqb hash_alg iMB_AUTH_CHACHA20_POLY1305_SGL)
+  then Some iMB_ERR_HASH_ALGO
+  else if N.eqb j.jv_iv N0
+       then Some iMB_ERR_JOB_NULL_IV
+       else if negb (N.eqb j.jv_iv_len_in_bytes (Npos (XO (XO (XI XH)))))
+            then Some iMB_ERR_JOB_IV_LEN
+            else if N.eqb j.jv_enc_keys N0
+                 then Some iMB_ERR_JOB_NULL_KEY
+                 else if negb
+                           (N.eqb key_len_in_bytes (Npos (XO (XO (XO (XO (XO
+                             XH)))))))
+                      then Some iMB_ERR_JOB_KEY_LEN
+                      else oseq
+                             (if (||)
+                                   ((||) (N.eqb j.jv_sgl_state iMB_SGL_INIT)
+                                     (N.eqb j.jv_sgl_state iMB_SGL_UPDATE))
+                                   (N.eqb j.jv_sgl_state iMB_SGL_COMPLETE)
+                              then if N.ltb (Npos (XO (XO (XO (XO (XO (XO (XI
+                                        (XI (XI (XI (XI (XI (XI (XI (XI (XI
+                                        (XI (XI (XI (XI (XI (XI (XI (XI (XI
+                                        (XI (XI (XI (XI (XI (XI (XI (XI (XI
+                                        (XI (XI (XI
+                                        XH))))))))))))))))))))))))))))))))))))))
+                                        j.jv_msg_len_to_cipher
+                                   then Some iMB_ERR_JOB_CIPH_LEN
                                    else if (&&)
                                              (negb
                                                (N.eqb j.jv_msg_len_to_cipher
-                                                 N0)) (N.eqb j.jv_dst N0)
-                                        then Some iMB_ERR_JOB_NULL_DST
-                                        else None
-                         else if N.eqb j.jv_sgl_state iMB_SGL_ALL
-                              then let total_sgl_len = N0 in
-                                   let (loop_result, total_sgl_len0) =
-                                     is_job_invalid_for1 j cipher_mode
-                                       hash_alg cipher_direction
-                                       key_len_in_bytes j.jv_sgl_segs N0
-                                       total_sgl_len
-                                   in
-                                   oseq loop_result
-                                     (if N.ltb (Npos (XO (XO (XO (XO (XO (XO
-                                           (XI (XI (XI (XI (XI (XI (XI (XI
-                                           (XI (XI (XI (XI (XI (XI (XI (XI
-                                           (XI (XI (XI (XI (XI (XI (XI (XI
-                                           (XI (XI (XI (XI (XI (XI (XI
-                                           XH))))))))))))))))))))))))))))))))))))))
-                                           total_sgl_len0
-                                      then Some iMB_ERR_JOB_CIPH_LEN
-                                      else None)
-                              else Some iMB_ERR_JOB_SGL_STATE) None
+                                                 N0)) (N.eqb j.jv_src N0)
+                                        then Some iMB_ERR_JOB_NULL_SRC
+                                        else if (&&)
+                                                  (negb
+                                                    (N.eqb
+                                                      j.jv_msg_len_to_cipher
+                                                      N0)) (N.eqb j.jv_dst N0)
+                                             then Some iMB_ERR_JOB_NULL_DST
+                                             else None
+                              else if N.eqb j.jv_sgl_state iMB_SGL_ALL
+                                   then let total_sgl_len = N0 in
+                                        let (loop_result, total_sgl_len0) =
+                                          is_job_invalid_for1 j cipher_mode
+                                            hash_alg cipher_direction
+                                            key_len_in_bytes j.jv_sgl_segs N0
+                                            total_sgl_len
+                                        in
+                                        oseq loop_result
+                                          (if N.ltb (Npos (XO (XO (XO (XO (XO
+                                                (XO (XI (XI (XI (XI (XI (XI
+                                                (XI (XI (XI (XI (XI (XI (XI
+                                                (XI (XI (XI (XI (XI (XI (XI
+                                                (XI (XI (XI (XI (XI (XI (XI
+                                                (XI (XI (XI (XI
+                                                XH))))))))))))))))))))))))))))))))))))))
+                                                total_sgl_len0
+                                           then Some iMB_ERR_JOB_CIPH_LEN
+                                           else None)
+                                   else Some iMB_ERR_JOB_SGL_STATE) None
 
 (** val is_job_invalid_sw1_IMB_CIPHER_SNOW_V_AEAD :
     job_view -> n -> n -> n -> n -> n option **)
@@ -2902,7 +2947,7 @@ let is_job_invalid_sw1_IMB_CIPHER_SM4_CNTR j _ _ _ key_len_in_bytes =
 (** val is_job_invalid_sw1_IMB_CIPHER_SM4_ECB :
     job_view -> n -> n -> n -> n -> n option **)
 
-let is_job_invalid_sw1_IMB_CIPHER_SM4_ECB j _ _ cipher_direction _ =
+let is_job_invalid_sw1_IMB_CIPHER_SM4_ECB j _ _ cipher_direction key_len_in_bytes =
   if N.eqb j.jv_src N0
   then Some iMB_ERR_JOB_NULL_SRC
   else if N.eqb j.jv_dst N0
@@ -2913,14 +2958,18 @@ let is_job_invalid_sw1_IMB_CIPHER_SM4_ECB j _ _ cipher_direction _ =
             else if (&&) (N.eqb cipher_direction iMB_DIR_DECRYPT)
                       (N.eqb j.jv_dec_keys N0)
                  then Some iMB_ERR_JOB_NULL_KEY
-                 else if N.eqb j.jv_msg_len_to_cipher N0
-                      then Some iMB_ERR_JOB_CIPH_LEN
-                      else if negb
-                                (N.eqb
-                                  (N.coq_land j.jv_msg_len_to_cipher (Npos
-                                    (XI (XI (XI XH))))) N0)
+                 else if negb
+                           (N.eqb key_len_in_bytes (Npos (XO (XO (XO (XO
+                             XH))))))
+                      then Some iMB_ERR_JOB_KEY_LEN
+                      else if N.eqb j.jv_msg_len_to_cipher N0
                            then Some iMB_ERR_JOB_CIPH_LEN
-                           else None
+                           else if negb
+                                     (N.eqb
+                                       (N.coq_land j.jv_msg_len_to_cipher
+                                         (Npos (XI (XI (XI XH))))) N0)
+                                then Some iMB_ERR_JOB_CIPH_LEN
+                                else None
 
 (** val is_job_invalid_sw1_IMB_CIPHER_SM4_CBC :
     job_view -> n -> n -> n -> n -> n option **)
@@ -7717,15 +7766,6 @@ let job_ok j =
 let violations j =
   violations_of (all_rules j) j
 
-(** val disc_D1_chacha_pairing : job_view -> bool **)
-
-let disc_D1_chacha_pairing j =
-  (||)
-    ((&&) (N.eqb j.jv_cipher_mode iMB_CIPHER_CHACHA20_POLY1305)
-      (negb (N.eqb j.jv_hash_alg iMB_AUTH_CHACHA20_POLY1305)))
-    ((&&) (N.eqb j.jv_cipher_mode iMB_CIPHER_CHACHA20_POLY1305_SGL)
-      (negb (N.eqb j.jv_hash_alg iMB_AUTH_CHACHA20_POLY1305_SGL)))
-
 (** val disc_D2_key_len_truncated : job_view -> bool **)
 
 let disc_D2_key_len_truncated j =
@@ -7744,20 +7784,6 @@ let disc_D3_sgl_total_wraps j =
       XH)))))))))))))))))))))))))))))))))))))))))))))))))))))))))))))))))
       (sgl_total j.jv_sgl_segs))
 
-(** val disc_D4_cbcs_key_len : job_view -> bool **)
-
-let disc_D4_cbcs_key_len j =
-  (&&) (N.eqb j.jv_cipher_mode iMB_CIPHER_CBCS_1_9)
-    (negb (N.eqb j.jv_key_len_in_bytes (Npos (XO (XO (XO (XO XH)))))))
-
-(** val disc_D6_sm4_key_len : job_view -> bool **)
-
-let disc_D6_sm4_key_len j =
-  (&&)
-    ((||) (N.eqb j.jv_cipher_mode iMB_CIPHER_SM4_ECB)
-      (N.eqb j.jv_cipher_mode iMB_CIPHER_SM4_CBC))
-    (negb (N.eqb j.jv_key_len_in_bytes (Npos (XO (XO (XO (XO XH)))))))
-
 (** val disc_D8_docsis_offset_wraps : job_view -> bool **)
 
 let disc_D8_docsis_offset_wraps j =
@@ -7773,24 +7799,15 @@ let disc_D8_docsis_offset_wraps j =
 
 let outside_known_discrepancies j =
   (&&)
-    ((&&)
-      ((&&)
-        ((&&)
-          ((&&) (negb (disc_D1_chacha_pairing j))
-            (negb (disc_D2_key_len_truncated j)))
-          (negb (disc_D3_sgl_total_wraps j))) (negb (disc_D4_cbcs_key_len j)))
-      (negb (disc_D6_sm4_key_len j))) (negb (disc_D8_docsis_offset_wraps j))
+    ((&&) (negb (disc_D2_key_len_truncated j))
+      (negb (disc_D3_sgl_total_wraps j)))
+    (negb (disc_D8_docsis_offset_wraps j))
 
 (** val discrepancy_flags : job_view -> n list **)
 
 let discrepancy_flags j =
-  app (if disc_D1_chacha_pairing j then (Npos XH) :: [] else [])
-    (app (if disc_D2_key_len_truncated j then (Npos (XO XH)) :: [] else [])
-      (app (if disc_D3_sgl_total_wraps j then (Npos (XI XH)) :: [] else [])
-        (app
-          (if disc_D4_cbcs_key_len j then (Npos (XO (XO XH))) :: [] else [])
-          (app
-            (if disc_D6_sm4_key_len j then (Npos (XO (XI XH))) :: [] else [])
-            (if disc_D8_docsis_offset_wraps j
-             then (Npos (XO (XO (XO XH)))) :: []
-             else [])))))
+  app (if disc_D2_key_len_truncated j then (Npos (XO XH)) :: [] else [])
+    (app (if disc_D3_sgl_total_wraps j then (Npos (XI XH)) :: [] else [])
+      (if disc_D8_docsis_offset_wraps j
+       then (Npos (XO (XO (XO XH)))) :: []
+       else []))
